@@ -122,7 +122,7 @@ RefOne(rule, pe, e) ==             \* the reference rule on ONE definite integra
          IF IsInt(e) THEN EvalAt(e[2], e[3], e[4], FromPoly(PAnti(ToPoly(e[5], e[2])), e[2])) ELSE e
     [] rule = "EvalAt" ->                  \* [F]_x=a,b = F(b) - F(a)
          IF e[1] = "evalat"
-         THEN LET p == ToPoly(e[5], e[2])  lo == Val(e[3], <<>>)  hi == Val(e[4], <<>>) IN Q(RSub(PEval(p, hi[2]), PEval(p, lo[2])))
+         THEN LET p == ToPoly(e[5], e[2])  lo == Val(e[3], <<>>)  hi == Val(e[4], <<>>) IN Q(RSub(PEval(p, hi.v), PEval(p, lo.v)))
          ELSE e
     [] rule = "ExpandPolynomial" -> IF IsInt(e) THEN IntE(e[2], e[3], e[4], FromPoly(ToPoly(e[5], e[2]), e[2])) ELSE e
     [] rule = "Simplify" ->
@@ -130,8 +130,8 @@ RefOne(rule, pe, e) ==             \* the reference rule on ONE definite integra
          ELSE IF e[1] = "deriv" \/ e[1] = "sum" \/ e[1] = "evalat" THEN e ELSE FromPoly(ToPoly(e, "x"), "x")
     [] rule = "Substitution" ->            \* u = a * x + b :  INT x:[l,h]. f = INT u:[a l + b, a h + b]. f((u - b) / a) / a
          IF IsInt(e)
-         THEN LET a == Val(pe[1], <<>>)[2]  b == Val(pe[2], <<>>)[2]  ia == RDiv(One, a)
-                  lo == Val(e[3], <<>>)[2]  hi == Val(e[4], <<>>)[2]
+         THEN LET a == Val(pe[1], <<>>).v  b == Val(pe[2], <<>>).v  ia == RDiv(One, a)
+                  lo == Val(e[3], <<>>).v  hi == Val(e[4], <<>>).v
                   g == PScale(ia, PComp(ToPoly(e[5], e[2]), ia, RNeg(RMul(b, ia)))) IN
               IntE("u", Q(RAdd(RMul(a, lo), b)), Q(RAdd(RMul(a, hi), b)), FromPoly(g, "u"))
          ELSE e
@@ -145,7 +145,7 @@ RefOne(rule, pe, e) ==             \* the reference rule on ONE definite integra
     [] rule = "SummationSimplify" ->       \* (-1) ^ (2 * k) = 1 for integer k
          IF e[1] = "sum" /\ e[5][1] = "op" /\ e[5][2] = "*" /\ e[5][3] = SignFactor THEN <<"sum", e[2], e[3], e[4], Mul(K(1), e[5][4])>> ELSE e
     [] rule = "SumUnfold" ->               \* a finite sum is the sum of its terms
-         IF e[1] = "sum" /\ ToPoly(e[5], e[2]) # PErr THEN LET lo == Val(e[3], <<>>)[2][1]  hi == Val(e[4], <<>>)[2][1]  p == ToPoly(e[5], e[2]) IN
+         IF e[1] = "sum" /\ ToPoly(e[5], e[2]) # PErr THEN LET lo == Val(e[3], <<>>).v[1]  hi == Val(e[4], <<>>).v[1]  p == ToPoly(e[5], e[2]) IN
                                Q(HornerP([i \in 1..(hi - lo + 1) |-> PEval(p, RInt(lo + i - 1))], One, 1))
          ELSE e
     [] OTHER -> e
@@ -156,15 +156,15 @@ MapInt(rule_pe, e) ==
     [] OTHER -> e
 \* rules with parameters act on the FIRST definite integral of the expression only (as rules.py does: separate_integral()[0])
 RECURSIVE MapFirst(_, _)
-MapFirst(rule_pe, e) ==          \* <<done, e'>>
-  CASE e[1] = "int" -> <<TRUE, RefOne(rule_pe[1], rule_pe[2], e)>>
+MapFirst(rule_pe, e) ==          \* [done, e]   (a record: see the note in C19_Eval)
+  CASE e[1] = "int" -> [done |-> TRUE, e |-> RefOne(rule_pe[1], rule_pe[2], e)]
     [] e[1] = "op" -> LET a == MapFirst(rule_pe, e[3]) IN
-                      IF a[1] THEN <<TRUE, <<"op", e[2], a[2], e[4]>>>>
-                      ELSE LET b == MapFirst(rule_pe, e[4]) IN <<b[1], <<"op", e[2], e[3], b[2]>>>>
-    [] e[1] = "neg" -> LET a == MapFirst(rule_pe, e[2]) IN <<a[1], <<"neg", a[2]>>>>
-    [] OTHER -> <<FALSE, e>>
+                      IF a.done THEN [done |-> TRUE, e |-> <<"op", e[2], a.e, e[4]>>]
+                      ELSE LET b == MapFirst(rule_pe, e[4]) IN [done |-> b.done, e |-> <<"op", e[2], e[3], b.e>>]
+    [] e[1] = "neg" -> LET a == MapFirst(rule_pe, e[2]) IN [done |-> a.done, e |-> <<"neg", a.e>>]
+    [] OTHER -> [done |-> FALSE, e |-> e]
 Parametric == {"Substitution", "IntegrationByParts", "SplitRegion"}
-Ref(rule, pe, e) == IF rule \in Parametric THEN MapFirst(<<rule, pe>>, e)[2]
+Ref(rule, pe, e) == IF rule \in Parametric THEN MapFirst(<<rule, pe>>, e).e
                     ELSE IF rule = "Simplify" /\ e[1] \notin {"int", "op", "neg"} THEN RefOne(rule, pe, e)
                     ELSE MapInt(<<rule, pe>>, e)
 
@@ -239,16 +239,16 @@ Spec == Init /\ [][Next]_vars
 
 (* ---------------------------------- invariants ---------------------------------- *)
 \* the property: every step has the value of the start expression (at every grid point; all defined and examinable)
-SameValueInv == \A env \in DOMAIN ref : ref[env][1] = 0 /\ (Len(steps) > 0 => Val(Last, env) = ref[env])
+SameValueInv == \A env \in DOMAIN ref : ref[env].st = 0 /\ (Len(steps) > 0 => Val(Last, env) = ref[env])
 \* the general comparison operator used by the trace specification gives the same verdict
-SameValueOp == Len(steps) > 0 => LET r == SameValue(start, Last, <<>>) IN ~r[1] /\ r[2]
+SameValueOp == Len(steps) > 0 => LET r == SameValue(start, Last, <<>>) IN ~r.fails /\ r.cmp
 \* symbolic evaluation of a closed definite integral / of a derivative at the grid, against the pointwise evaluator
 TwoEvaluators ==
   /\ IsInt(Last) /\ ToPoly(Last[5], Last[2]) # PErr =>
-       LET P == PAnti(ToPoly(Last[5], Last[2]))  lo == Val(Last[3], <<>>)[2]  hi == Val(Last[4], <<>>)[2] IN
-       Val(Last, <<>>) = <<0, RSub(PEval(P, hi), PEval(P, lo)), Z>>
+       LET P == PAnti(ToPoly(Last[5], Last[2]))  lo == Val(Last[3], <<>>).v  hi == Val(Last[4], <<>>).v IN
+       Val(Last, <<>>) = Res(0, RSub(PEval(P, hi), PEval(P, lo)), Z)
   /\ Last[1] = "deriv" /\ ToPoly(Last[3], Last[2]) # PErr =>
-       \A t \in Grid(1) : Val(Last, [y \in {Last[2]} |-> t]) = <<0, PEval(PDeriv(ToPoly(Last[3], Last[2])), t), Z>>
+       \A t \in Grid(1) : Val(Last, [y \in {Last[2]} |-> t]) = Res(0, PEval(PDeriv(ToPoly(Last[3], Last[2])), t), Z)
 SimplifyIdempotent == LET s == Ref("Simplify", <<>>, Last) IN Ref("Simplify", <<>>, s) = s
 \* written at the end of the run: every transition taken, as a vector for the real code
 Emit == LET vs == TLCGet(7) IN
